@@ -311,4 +311,25 @@ PROPS = {
                         "a delegation whose DS RRset names only algorithms outside dnssec::validator::base::supported_algorithm is insecure (RFC 4035 5.2)",
                         "Bogus and Indeterminate are not distinguished"],
     },
+    "C15": {
+        "level": "exploration",
+        "features": ["crypto", "hooks"],
+        "stages": [
+            {"mode": "native", "cpu_budget": 400},
+            {"mode": "tsan", "shards": 4, "scale": 0.05, "tiers": ["thorough"], "cpu_budget": 900},
+        ],
+        "rule": "an evaluation is one request (of 1-60 per case, issued in 1-3 waves separated by pauses longer than every timeout) through one of the six client "
+                "transports (dgram, stream, multi_stream, dgram_stream, redundant over dgram+multi_stream, load_balancer over two dgram) wired to mock datagram "
+                "sockets (AsyncConnect / AsyncDgramSend / AsyncDgramRecv) and tokio duplex streams under the paused tokio clock; each request has a unique query "
+                "name; per transmission the scripted peer sends 0-2 noise messages (wrong ID, other question, QR clear, garbage, short, an answer to another "
+                "request, questionless error with a wrong ID) and then nothing, a late answer (2.5-9 s), a questionless SERVFAIL, a truncated datagram, a "
+                "connection close (possibly mid-frame), a re-cased question or the answer, sometimes duplicated up to 6 s later; stream connects may be "
+                "refused. Oracle over the caller's result joined with the peer's log of (wire ID, query name): an Ok message has QR set, an ID that was used for "
+                "this very request, and this request's question (or, without question, an error rcode and empty sections); every request completes, and within "
+                "the transport's timeout-and-retry budget (virtual time); a truncated datagram answer is only handed out after the stream was tried; no panic; "
+                "distinct = (transport, outcome class, rcode/TC, virtual latency class, number of transmissions)",
+        "assumptions": ["an Err is always an acceptable completion",
+                        "the completion budget is (1+retries) x read timeout for datagrams times the number of queued requests a max_parallel of 1 may put "
+                        "ahead, and a small multiple of the response timeout for streams"],
+    },
 }
